@@ -147,8 +147,10 @@ def _install_mopack(env):
 def _uninstall_files(install_outputs, env):
     def uninstall_line(src, dst):
         if isinstance(src, Directory):
+            # A directory's file list can name subdirectories too (e.g.
+            # `directory('data', include='**')`); only files are removed.
             return [dst.path.append(i.path.relpath(src.path)) for i in
-                    iterate(src.files)]
+                    iterate(src.files) if not isinstance(i, Directory)]
         return [dst.path]
 
     if install_outputs:
